@@ -52,6 +52,24 @@ impl lin for Md { nad: 3, }
 '''
 
 
+# the same names as SERVICE_SCHEMA (enum, structs, messages, services, device, buses) with different contents: anything a
+# process remembers by NAME from one schema shows when the other is generated afterwards in the same process
+TWIN_SCHEMA = '''version: "3"
+
+enum Mode { Off = 0, On = 1, }
+struct Req { level @0: u5, mode @1: Mode, modes @2: [Mode, 3], }
+struct Rsp { text @0: str, ok @1: u3, }
+struct Tele { b @0: [u4, 3], a @1: i9, m @2: Mode, }
+impl can for Tele { id: 200, bus: "b2", device: "ecu", }
+impl can for Req as ReqMsg { id: 201, bus: "b1", device: "ecu", period: 25, }
+impl uart for Tele { baud: 115200, }
+impl json for Rsp { pretty: 0, }
+service Control @3 { method set(Rsp) @1 returns Req, }
+service Other @4 { method ping(Rsp) @2 returns Rsp, method pong(Req) @0 returns Req, }
+device ecu { services: [Other], }
+'''
+
+
 def digest(files):
     return hashlib.sha1(json.dumps(sorted(files.items())).encode()).hexdigest()[:20]
 
@@ -90,6 +108,9 @@ def run_c17(tier, seed):
     with open(os.path.join(sdir, "devices.fcp"), "w") as f:
         f.write(MANY_DEVICES_SCHEMA)
     pool["gen:devices"] = os.path.join(sdir, "devices.fcp")
+    with open(os.path.join(sdir, "twin.fcp"), "w") as f:
+        f.write(TWIN_SCHEMA)
+    pool["gen:services-twin"] = os.path.join(sdir, "twin.fcp")
     for i in range(4 if tier == "quick" else 20):
         sch = rand_can_schema(rng)
         p = os.path.join(sdir, "can%d.fcp" % i)
@@ -114,6 +135,14 @@ def run_c17(tier, seed):
             runs.append((base[(names.index(n) * 8 + k) % len(base)], {"s1": n, "s2": rng.choice(names)}))
     for h in picks:
         runs.append((h, {"s1": rng.choice(names), "s2": rng.choice(names)}))
+    # two different schemas that declare the same names, one after the other in one process, in both orders
+    gens = sorted(n for n in names if n.startswith("gen:can"))
+    twins = [("gen:services", "gen:services-twin")] + [(a, b) for i, a in enumerate(gens) for b in gens[i + 1:]][:6 if tier == "quick" else 60]
+    for a, b in twins:
+        for x, y in ((a, b), (b, a)):
+            for g1, g2 in (("dbc", "dbc"), ("can_c", "can_c"), ("cpp", "cpp"), ("nop", "can_c"), ("can_c", "dbc")):
+                runs.append(([{"op": "generate", "g": g1, "s": "s2", "mode": "fresh"}, {"op": "generate", "g": g2, "s": "s1", "mode": "fresh"}],
+                             {"s1": x, "s2": y}))
     for i, (h, bind) in enumerate(runs):
         job = {"hist": h, "schemas": {k: pool[v] for k, v in bind.items()}, "bad": 'version: "3"\nstruct Broken { a @0: Nope,',
                "outdir": os.path.join(chk.workdir, "out")}
